@@ -7,8 +7,10 @@ RULE = ("(a) set/get/list histories of C11 incl. refused calls, growth, merges, 
         "C01/C06/C13/C16 with a failure injected at each consulted file in turn: callback rejection, foreign owner, malformed "
         "line, dangling link, plus unknown options and missing files; after every scenario all handles the caller holds are "
         "released with the documented free functions and LeakSanitizer must find nothing left; AddressSanitizer reports double "
-        "frees and use after free; the out-pointer state (NULL / object) is compared with the model, whose object ledger is "
+        "frees and use after free; every scenario also runs in a clang MemorySanitizer build of the driver (reads of uninitialised memory); the out-pointer state (NULL / object) is compared with the model, whose object ledger is "
         "proved balanced (theorems); the free functions are called with NULL; distinct by scenario")
+
+EXTRA_FLAVOURS = ["msan"]     # clang MemorySanitizer build of the same driver: reads of uninitialised memory
 
 def gen(rng, tier):
     n = 450 if tier == "quick" else 15000
